@@ -358,6 +358,38 @@ def _dispatch(chk, repo, mod, W):
     chk.floor("C05.dispatch", n_tab, 40, "scenarios walked")
 
 
+def filter_list_memos(chk, mod, W, rule):
+    """nothing computed from the members of a filter *list* is kept on the object, unless every mutator drops it"""
+    # a filter list is a (mutable) list: nothing computed from its members may be kept on the object, unless every
+    # inherited mutator is overridden to drop it
+    MUTATORS = ("append", "extend", "insert", "pop", "remove", "sort", "reverse", "clear", "__setitem__", "__delitem__",
+                "__iadd__", "__imul__")
+    for cdef in [n for n in ast.walk(mod.tree) if isinstance(n, ast.ClassDef) and n.name in ("FilterList", "CascadeFilter", "ParallelFilter")]:
+        for meth in [m_ for m_ in cdef.body if isinstance(m_, FuncTypes)]:
+            for ifn in [n for n in ast.walk(meth) if isinstance(n, ast.If)]:
+                t_ = unparse(ifn.test)
+                kept = None
+                for st_ in ifn.body:
+                    if isinstance(st_, ast.Assign) and len(st_.targets) == 1 and isinstance(st_.targets[0], ast.Attribute) \
+                            and unparse(st_.targets[0].value) == "self" and any(
+                                isinstance(x, ast.Name) and x.id == "self" for x in ast.walk(st_.value)):
+                        a_ = st_.targets[0].attr
+                        if t_ in ("not hasattr(self, %r)" % a_, "self.%s is None" % a_, "getattr(self, %r, None) is None" % a_,
+                                  "not self.%s" % a_, "%r not in self.__dict__" % a_):
+                            kept = (a_, st_)
+                if kept is None:
+                    continue
+                attr_, st_ = kept
+                drops = [m2.name for m2 in cdef.body if isinstance(m2, FuncTypes) and m2.name in MUTATORS and any(
+                    (isinstance(x, (ast.Delete, ast.Assign)) and ("self.%s" % attr_) in unparse(x)) for x in ast.walk(m2))]
+                chk.decide(set(drops) >= set(MUTATORS), rule, W("%s.%s" % (cdef.name, meth.name)),
+                           "kept on the object: %s" % short(st_),
+                           why="%s is a list: after append / extend / item assignment / del the kept value (computed "
+                               "from the members it had) still answers - numpoly, denpoly and what is built on them "
+                               "describe the old bank, while calls use the current one; no mutator drops self.%s"
+                               % (cdef.name, attr_), node=st_)
+
+
 def run(chk, repo):
     mod = repo.mod(LF)
     W = lambda q: "%s:%s" % (mod.relpath, q)
@@ -761,34 +793,7 @@ def run(chk, repo):
                           "of the parts, __call__ folds the parts in order over the running data. ParallelFilter: "
                           "freq_response = reduce(add); numpoly and denpoly are projections of one and the same "
                           "reduction; __call__ shares args[0] through thub(args[0], len(self)) and adds the outputs")
-    # a filter list is a (mutable) list: nothing computed from its members may be kept on the object, unless every
-    # inherited mutator is overridden to drop it
-    MUTATORS = ("append", "extend", "insert", "pop", "remove", "sort", "reverse", "clear", "__setitem__", "__delitem__",
-                "__iadd__", "__imul__")
-    for cdef in [n for n in ast.walk(mod.tree) if isinstance(n, ast.ClassDef) and n.name in ("FilterList", "CascadeFilter", "ParallelFilter")]:
-        for meth in [m_ for m_ in cdef.body if isinstance(m_, FuncTypes)]:
-            for ifn in [n for n in ast.walk(meth) if isinstance(n, ast.If)]:
-                t_ = unparse(ifn.test)
-                kept = None
-                for st_ in ifn.body:
-                    if isinstance(st_, ast.Assign) and len(st_.targets) == 1 and isinstance(st_.targets[0], ast.Attribute) \
-                            and unparse(st_.targets[0].value) == "self" and any(
-                                isinstance(x, ast.Name) and x.id == "self" for x in ast.walk(st_.value)):
-                        a_ = st_.targets[0].attr
-                        if t_ in ("not hasattr(self, %r)" % a_, "self.%s is None" % a_, "getattr(self, %r, None) is None" % a_,
-                                  "not self.%s" % a_, "%r not in self.__dict__" % a_):
-                            kept = (a_, st_)
-                if kept is None:
-                    continue
-                attr_, st_ = kept
-                drops = [m2.name for m2 in cdef.body if isinstance(m2, FuncTypes) and m2.name in MUTATORS and any(
-                    (isinstance(x, (ast.Delete, ast.Assign)) and ("self.%s" % attr_) in unparse(x)) for x in ast.walk(m2))]
-                chk.decide(set(drops) >= set(MUTATORS), "C05.lists", W("%s.%s" % (cdef.name, meth.name)),
-                           "kept on the object: %s" % short(st_),
-                           why="%s is a list: after append / extend / item assignment / del the kept value (computed "
-                               "from the members it had) still answers - numpoly, denpoly and what is built on them "
-                               "describe the old bank, while calls use the current one; no mutator drops self.%s"
-                               % (cdef.name, attr_), node=st_)
+    filter_list_memos(chk, mod, W, "C05.lists")
     for cname, opname in (("CascadeFilter", "operator.mul"), ("ParallelFilter", "operator.add")):
         fr = repo.find(LF, cname + ".freq_response")
         red = _reduce_shape(mod, fr)
